@@ -723,10 +723,10 @@ fn main() {
     ctx.assume("the agent-side lifecycle trace (on_update/on_remove/on_clear) is the ground truth for the states a map lane held; its fold is cross-checked against a probe remote that syncs with the quiescent lane in every case");
     ctx.assume("single-threaded harness-owned schedule; op-level interleavings of agent task vs remotes");
     ctx.assume("queue-*: keys are identified by equality of the parsed Recon value (swimos_recon parser + Value::eq)");
-    let n = ctx.pick(150_000, 4_000_000);
+    let n = ctx.pick(300_000, 8_000_000);
     let max_ops = ctx.pick(60, 200);
     ctx.prop("map-replica", n, move || arb_case(max_ops), check);
-    let n = ctx.pick(60_000, 1_500_000);
+    let n = ctx.pick(100_000, 3_000_000);
     ctx.prop("single-writer-take-drop", n, move || arb_sw_case(max_ops), check_sw);
     let depth = ctx.pick(6, 7);
     ctx.enumerate("queue-small-scope", move |w, ws| enumerate_small(depth, w, ws), check_queue);
